@@ -309,6 +309,7 @@ macro_rules! sweep_h {
         #[kani::stub(super::super::compute_fields::compute_fields, compute_fields_model)]
         #[kani::stub(super::super::possible_intersection::possible_intersection, possible_intersection_model)]
         #[kani::stub(std::collections::BinaryHeap::pop, super::common::heap_pop_scripted)]
+        #[kani::stub(std::collections::BinaryHeap::push, super::common::heap_push_record)]
         fn $name() {
             stack3($a, $b, $c, $mode)
         }
